@@ -3,6 +3,7 @@ package main
 import (
 	"fmt"
 	"reflect"
+	"strconv"
 	"strings"
 	"time"
 
@@ -235,7 +236,7 @@ func emitDtend(o *Out, g *gComp) {
 
 var calBase = time.Date(2024, 3, 10, 0, 0, 0, 0, time.UTC)
 
-func tAt(h int) time.Time { return calBase.Add(time.Duration(h) * time.Hour) }
+func tAt(h int) time.Time       { return calBase.Add(time.Duration(h) * time.Hour) }
 func fmtUTC(t time.Time) string { return t.UTC().Format("20060102T150405Z") }
 
 func evComp(props ...gProp) *gComp { return &gComp{name: "VEVENT", props: props} }
@@ -319,10 +320,15 @@ func famCalOverlap(o *Out, r *RNG, thorough bool) {
 				if freq == "WEEKLY" && (interval == 2 || !thorough && count == 3) {
 					continue
 				}
-				for _, dur := range []string{"", "PT0S", "PT1H", "PT25H"} {
+				// the length of every instance is the length of the event, however that is stated: no end at all,
+				// a DURATION, or a DTEND (the same lengths stated either way must be answered alike)
+				for _, dur := range []string{"", "PT0S", "PT1H", "PT25H", "end+1", "end+25", "end+0"} {
 					props := []gProp{{name: "DTSTART", value: fmtUTC(tAt(1))},
 						{name: "RRULE", value: fmt.Sprintf("FREQ=%s;INTERVAL=%d;COUNT=%d", freq, interval, count)}}
-					if dur != "" {
+					if strings.HasPrefix(dur, "end+") {
+						h, _ := strconv.Atoi(dur[4:])
+						props = append(props, gProp{name: "DTEND", value: fmtUTC(tAt(1 + h))})
+					} else if dur != "" {
 						props = append(props, gProp{name: "DURATION", value: dur})
 					}
 					ev := evComp(props...)
